@@ -2,6 +2,7 @@ package sim
 
 import (
 	"fmt"
+	"os"
 	"time"
 
 	"pgregory.net/rapid"
@@ -55,6 +56,74 @@ func MixReacquire(profile string, gen func(*rapid.T) *Plan) func(*rapid.T) *Plan
 	return func(t *rapid.T) *Plan {
 		if rapid.IntRange(0, 4).Draw(t, "shape") == 0 {
 			return GenReacquirePlan(t, profile)
+		}
+		return gen(t)
+	}
+}
+
+// GenRestartInFlightPlan builds the shape "an election is stopped and started again while an acquisition of
+// its own is still in flight": a leader gives the key up (graceful DeleteKey shutdown, outside delete, or
+// plain Stop followed by expiry) and a follower's retry round sends the Create that will win; at a phase of
+// one of the follower's Creates the follower is stopped and, before the answer arrives, started again.
+// Fault-free: every latency is below H/4 per direction.
+func GenRestartInFlightPlan(t *rapid.T, profile string) *Plan {
+	h := rapid.SampledFrom([]time.Duration{200 * time.Millisecond, 400 * time.Millisecond, time.Second}).Draw(t, "H")
+	p := &Plan{Profile: profile + "/restart-in-flight", H: h, TTL: 3 * h, SnapEvery: odd(h/3 + 29*time.Microsecond)}
+	quarter := h/4 - 1
+	p.Instances = []Inst{
+		{ID: "L", Group: "g", Lat: []time.Duration{1, 3}},
+		{ID: "F", Group: "g", Promote: rapid.SampledFrom([]int{0, 1, 2}).Draw(t, "promote"),
+			Lat: []time.Duration{odd(time.Duration(rapid.Int64Range(0, int64(quarter/4)).Draw(t, "req"))), odd(time.Duration(rapid.Int64Range(int64(quarter/2), int64(quarter)).Draw(t, "resp")))}},
+	}
+	if rapid.Bool().Draw(t, "third") {
+		p.Instances = append(p.Instances, Inst{ID: "G", Group: "g", Lat: []time.Duration{5, 7}})
+	}
+	p.Timeline = []Action{{At: 1, Kind: ActStart, Inst: 0}, {At: odd(h / 2), Kind: ActStart, Inst: 1}}
+	if len(p.Instances) > 2 {
+		p.Timeline = append(p.Timeline, Action{At: odd(h/2 + time.Duration(rapid.Int64Range(1, int64(4*h)).Draw(t, "g_start"))), Kind: ActStart, Inst: 2})
+	}
+	tv := odd(h/2 + time.Duration(rapid.Int64Range(int64(100*time.Millisecond), int64(1500*time.Millisecond)).Draw(t, "t_vacancy")))
+	switch rapid.IntRange(0, 2).Draw(t, "how") {
+	case 0:
+		p.Timeline = append(p.Timeline, Action{At: tv, Kind: ActStopCtx, Inst: 0, DeleteKey: true})
+	case 1:
+		p.Timeline = append(p.Timeline, Action{At: tv, Kind: ActStop, Inst: 0})
+	default:
+		p.Timeline = append(p.Timeline, Action{At: tv, Kind: ActStopCtx, Inst: 0, DeleteKey: true, WaitForDemote: true})
+	}
+	// the follower is restarted inside one of its own Creates
+	nr := rapid.IntRange(1, 3).Draw(t, "nrules")
+	seen := map[int]bool{}
+	for j := 0; j < nr; j++ {
+		n := rapid.IntRange(1, 9).Draw(t, "create_n")
+		if seen[n] {
+			continue
+		}
+		seen[n] = true
+		stop := GenStopAction(t, 0, 1, h)
+		stop.DeleteKey = false // (deleting would simply undo the acquisition under test)
+		tr := &Trigger{Phase: rapid.SampledFrom([]string{"issued", "applied", "applied"}).Draw(t, "phase"), Action: stop,
+			Follow:      &Action{Kind: ActStart, Inst: 1},
+			FollowDelay: odd(time.Duration(rapid.Int64Range(1, int64(quarter/2)).Draw(t, "follow_delay")))}
+		p.Instances[1].Rules = append(p.Instances[1].Rules, OpRule{Kind: OpCreate, N: n, Trigger: tr})
+	}
+	p.Horizon = tv + 10*h + p.TTL + 2*time.Second
+	for i := 0; i < rapid.IntRange(0, 3).Draw(t, "ndice"); i++ {
+		p.Dice = append(p.Dice, rapid.SampledFrom([]float64{0, 0.999999, 0.5}).Draw(t, "dice"))
+	}
+	sortTimeline(p)
+	return p
+}
+
+// MixShapes returns gen, except that some cases come from the given shape generators.
+func MixShapes(gen func(*rapid.T) *Plan, shapes ...func(*rapid.T) *Plan) func(*rapid.T) *Plan {
+	return func(t *rapid.T) *Plan {
+		k := rapid.IntRange(0, 3+len(shapes)).Draw(t, "shape")
+		if os.Getenv("VERIF_ONLY_SHAPES") != "" {
+			k = k % len(shapes)
+		}
+		if k < len(shapes) {
+			return shapes[k](t)
 		}
 		return gen(t)
 	}
